@@ -3,6 +3,8 @@ use proptest::prelude::*;
 use proptest::test_runner::{Config, RngSeed, TestRunner};
 use std::collections::BTreeMap;
 use tantivy::collector::DocSetCollector;
+use scratch::SimDir;
+use std::collections::BTreeSet;
 use tantivy::indexer::UserOperation;
 use tantivy::query::AllQuery;
 use tantivy::schema::*;
@@ -36,7 +38,7 @@ fn opstrat() -> impl Strategy<Value = Op> {
 type Model = BTreeMap<u64, u8>; // uid -> group
 
 fn content(index: &Index) -> Result<Vec<(u64, u8)>, String> {
-    let reader = index.reader().map_err(|e| format!("{e:?}"))?;
+    let reader: tantivy::IndexReader = index.reader_builder().reload_policy(tantivy::ReloadPolicy::Manual).try_into().map_err(|e: tantivy::TantivyError| format!("{e:?}"))?;
     let s = reader.searcher();
     let mut out = vec![];
     for a in s.search(&AllQuery, &DocSetCollector).map_err(|e| format!("{e:?}"))? {
@@ -58,12 +60,16 @@ fn main() {
     let cfg = Config { cases, rng_seed: RngSeed::Fixed(seed), failure_persistence: None, max_shrink_iters: 3000, ..Config::default() };
     let mut runner = TestRunner::new(cfg);
     let ncommits = std::cell::Cell::new(0usize);
+    let retries = std::cell::Cell::new(0usize);
     let burn = std::env::args().nth(3).is_some();
     let res = runner.run(&strat, |(ops, threads, default_policy)| {
         let mut sb = Schema::builder();
         let uidf = sb.add_u64_field("uid", FAST | INDEXED | STORED);
         let grpf = sb.add_text_field("grp", STRING | STORED);
-        let index = Index::create_in_ram(sb.build());
+        let simdir = SimDir::new();
+        let sorted = std::env::var("SORTED").is_ok();
+        let settings = if sorted { tantivy::IndexSettings { sort_by_field: Some(tantivy::IndexSortByField { field: "uid".into(), order: tantivy::Order::Desc }), ..Default::default() } } else { Default::default() };
+        let index = Index::create(simdir.clone(), sb.build(), settings).unwrap();
         let mk = |index: &Index| -> IndexWriter { let w: IndexWriter = index.writer_with_num_threads(threads, 15_000_000 * threads).unwrap(); if !default_policy { w.set_merge_policy(Box::new(tantivy::merge_policy::NoMergePolicy)); } if burn { w.run(Vec::<UserOperation>::new()).unwrap(); } w };
         let mut w = Some(mk(&index));
         let mut committed: Model = Model::new();
@@ -98,6 +104,21 @@ fn main() {
                     let got = content(&index).map_err(TestCaseError::fail)?;
                     let exp: Vec<(u64, u8)> = committed.iter().map(|(k, v)| (*k, *v)).collect();
                     prop_assert!(got == exp, "after commit: got {:?} expected {:?}", got, exp);
+                    if !default_policy {
+                        wr.garbage_collect_files().wait().unwrap();
+                        for attempt in 0..6 {
+                        let present: BTreeSet<String> = simdir.st.lock().unwrap().files.keys().map(|p| p.to_str().unwrap().to_string()).filter(|p| !p.starts_with('.')).collect();
+                        let mut expected: BTreeSet<String> = index.searchable_segment_metas().unwrap().iter().flat_map(|m| m.list_files()).map(|p| p.to_str().unwrap().to_string()).filter(|p| present.contains(p) || !(p.ends_with(".del") || p.ends_with(".store.temp"))).collect();
+                        expected.insert("meta.json".to_string());
+                        let orphans: Vec<&String> = present.difference(&expected).collect();
+                        let missing: Vec<&String> = expected.difference(&present).collect();
+                        let temp: Vec<&String> = present.iter().filter(|p| p.ends_with(".store.temp")).collect();
+                        if !(orphans.is_empty() && missing.is_empty() && temp.is_empty()) && attempt < 5 { retries.set(retries.get() + 1); std::thread::sleep(std::time::Duration::from_millis(40)); wr.garbage_collect_files().wait().unwrap(); continue; }
+                        prop_assert!(orphans.is_empty() && missing.is_empty() && temp.is_empty(), "quiescence (after {} retries): orphans={:?} missing={:?} temp={:?}", attempt, orphans, missing, temp);
+                        let managed: BTreeSet<String> = index.directory().list_managed_files().iter().map(|p| p.to_str().unwrap().to_string()).collect();
+                        prop_assert!(managed == present, "managed list != present files: only_managed={:?} only_present={:?}", managed.difference(&present).collect::<Vec<_>>(), present.difference(&managed).collect::<Vec<_>>());
+                        break; }
+                    }
                 }
                 Op::PrepareAbort => { let pc = wr.prepare_commit().unwrap(); pc.abort().unwrap(); if burn { wr.run(Vec::<UserOperation>::new()).unwrap(); } pending = committed.clone(); let got = content(&index).map_err(TestCaseError::fail)?; let exp: Vec<(u64, u8)> = committed.iter().map(|(k, v)| (*k, *v)).collect(); prop_assert!(got == exp, "after abort: got {:?} expected {:?}", got, exp); last_op = 0; }
                 Op::Rollback => { wr.rollback().unwrap(); if burn { wr.run(Vec::<UserOperation>::new()).unwrap(); } pending = committed.clone(); last_op = 0; }
@@ -113,5 +134,5 @@ fn main() {
         prop_assert!(got == exp, "final: got {:?} expected {:?}", got, exp);
         Ok(())
     });
-    println!("commits={} result={}", ncommits.get(), match res { Ok(()) => "ok".to_string(), Err(e) => format!("{e:?}").chars().take(2500).collect() });
+    println!("commits={} quiescence_retries={} result={}", ncommits.get(), retries.get(), match res { Ok(()) => "ok".to_string(), Err(e) => format!("{e:?}").chars().take(2500).collect() });
 }
